@@ -2,6 +2,7 @@ import KfacVerif.Driver.Kaisa
 import KfacVerif.Driver.Misc
 import KfacVerif.Driver.Neox
 import KfacVerif.Driver.Precond
+import KfacVerif.Driver.Alg
 
 namespace KV.Driver
 
@@ -26,6 +27,7 @@ def dispatch (line : String) : String :=
     | "register" => registerOp args
     | "neox" => neoxOp args
     | "precond" => precondOp args
+    | "alg" => algOp args
     | _ => "bad-op"
 
 end KV.Driver
